@@ -95,6 +95,7 @@ Definition kstart (l : loc) : Z :=
    other one is never a child), then the containment shortcut, then the comparator *)
 Definition coll_lt (a b : loc) : bool :=
   if contains a b && negb (contains b a) then true
+  else if contains b a && negb (contains a b) then false  (* mirrored shortcut: repair of finding F53 / C10-F46 *)
   else (kstart a <? kstart b) || ((kstart a =? kstart b) && (- llen a <? - llen b)).
 
 (* bisect.bisect_left(a, x): the binary search itself, `p e` standing for a[mid] < x *)
